@@ -79,6 +79,10 @@ struct Reader {
         if (!(is >> t)) throw std::runtime_error("replay file truncated");
         return t;
     }
+    bool more() {  // is there another token? (lets newer engines read case files written before a field was added)
+        is >> std::ws;
+        return is.peek() != EOF;
+    }
     double d() { return strtod(tok().c_str(), nullptr); }
     uint64_t u() { return strtoull(tok().c_str(), nullptr, 10); }
     long long i() { return strtoll(tok().c_str(), nullptr, 10); }
